@@ -71,6 +71,29 @@ static void fieldop_run(Ctx& c) {
             c.cmp("adjoint", "C10:adjoint:single:" + wk, (a - b.adjoint()).norm(), 0.0, tol, [&] { return "stored c_" + std::to_string(i) + " vs adjoint of stored c+_" + std::to_string(i); });
         }
     }
+    // --- copies of computed parts (by value, as a user collecting parts in a std::vector would make them) hold the same two matrices
+    {
+        int i = (int)r.range(0, N - 1);
+        Pomerol::CreationOperator CX(*p.IC, *p.S, *p.H, (Pomerol::ParticleIndex)i); CX.prepare(); CX.compute();
+        Pomerol::AnnihilationOperator C(*p.IC, *p.S, *p.H, (Pomerol::ParticleIndex)i); C.prepare(); C.compute();
+        std::vector<Pomerol::CreationOperatorPart> vx; std::vector<Pomerol::AnnihilationOperatorPart> vc;
+        for (auto* q : CX.getParts()) vx.push_back(*static_cast<Pomerol::CreationOperatorPart*>(q));
+        for (auto* q : C.getParts()) vc.push_back(*static_cast<Pomerol::AnnihilationOperatorPart*>(q));
+        auto same = [&](Pomerol::FieldOperatorPart& cp, Pomerol::FieldOperatorPart& orig, const char* who) {
+            cp.compute();      // computed already: must change nothing
+            CMat r0 = dense_of(orig.getRowMajorValue()), c0 = dense_of(orig.getColMajorValue());
+            const Pomerol::RowMajorMatrixType& rm = cp.getRowMajorValue(); const Pomerol::ColMajorMatrixType& cm = cp.getColMajorValue();
+            bool shape = rm.rows() == r0.rows() && rm.cols() == r0.cols() && cm.rows() == c0.rows() && cm.cols() == c0.cols();
+            c.check("part-copy", std::string("C10:part-copy:shape:") + who, shape, [&] { return std::string("copy of a computed part of ") + who + "_" + std::to_string(i) + ": row-major " + std::to_string(rm.rows()) + "x" + std::to_string(rm.cols()) + ", col-major " + std::to_string(cm.rows()) + "x" + std::to_string(cm.cols()) + ", original " + std::to_string(r0.rows()) + "x" + std::to_string(r0.cols()); });
+            if (!shape) return;
+            c.cmp("part-copy", std::string("C10:part-copy:rowmajor:") + who, (dense_of(rm) - r0).norm(), 0.0, 0.0, [&] { return std::string("row-major matrix of a copied part of ") + who; });
+            c.cmp("part-copy", std::string("C10:part-copy:colmajor:") + who, (dense_of(cm) - c0).norm(), 0.0, 0.0, [&] { return std::string("col-major matrix of a copied part of ") + who; });
+            c.check("part-copy", std::string("C10:part-copy:indices:") + who, (int)cp.getLeftIndex() == (int)orig.getLeftIndex() && (int)cp.getRightIndex() == (int)orig.getRightIndex(), [&] { return std::string("block indices of a copied part differ"); });
+        };
+        for (size_t q = 0; q < vx.size(); ++q) same(vx[q], *CX.getParts()[q], "c+");
+        for (size_t q = 0; q < vc.size(); ++q) same(vc[q], *C.getParts()[q], "c");
+        c.count("part_copies", (long)(vx.size() + vc.size()));
+    }
     // --- container (annihilation parts filled from adjoints)
     p.build_ops();
     std::vector<CMat> Cc((size_t)N), CXc((size_t)N);
